@@ -132,6 +132,7 @@ func (s *Session) handleEvent(framer *framer) {
 }
 
 func (s *Session) handleSchemaEvent(frames []frame) {
+	verifYield("events.handle", nil, 0)
 	// TODO: debounce events
 	for _, frame := range frames {
 		switch f := frame.(type) {
@@ -166,6 +167,7 @@ func (s *Session) handleKeyspaceChange(keyspace, change string) {
 // that a NEW_NODE event is not dropped in favor of a newer UP event (which
 // would itself be dropped/ignored, as the node is not yet known).
 func (s *Session) handleNodeEvent(frames []frame) {
+	verifYield("events.handle", nil, 0)
 	type nodeEvent struct {
 		change string
 		host   net.IP
